@@ -250,6 +250,90 @@ func vhBuild(ctx int, s []byte) vhCtx {
 		c.symStart = 8 * len(p)
 		c.stream = append(append(p, s...), make([]byte, 20)...)
 		return c
+	case ctx == 93:
+		// a fixed block fills the output to 65536-K and ends; a final stored block with
+		// symbolic data follows: the copy of a stored block across the end of the output
+		// window (and, with small source reads, across input pieces)
+		k := verifrt.Param("K")
+		w.bits(0, 1)
+		w.bits(1, 2)
+		vbFixedSym(w, 'a')
+		produced := 1
+		target := 2*historySize - k
+		for produced+258 <= target {
+			vbFixedMatch(w, 258, 1)
+			produced += 258
+		}
+		for produced < target {
+			n := target - produced
+			if n < 3 {
+				for ; n > 0; n-- {
+					vbFixedSym(w, 'a')
+					produced++
+				}
+				break
+			}
+			vbFixedMatch(w, n, 1)
+			produced += n
+		}
+		vbFixedSym(w, 256)
+		c.preOut = produced
+		w.bits(1, 1)
+		w.bits(0, 2)
+		if w.n > 0 {
+			w.bits(0, int(8-w.n))
+		}
+		w.bits(uint32(len(s)), 16)
+		w.bits(uint32(len(s))^0xffff, 16)
+		c.symStart = w.bitLen()
+		c.stream = append(w.bytes(), s...)
+		return c
+	case ctx == 94:
+		// far back-references: a fixed block produces P = K bytes with period 26, then one
+		// match of length ML whose distance symbol DS is concrete and whose extra bits are
+		// symbolic within [XLO, XHI]; end-of-block. P below 65536 (no slide yet, match may
+		// cross the end of the output window) or above it (after the history slide).
+		P := verifrt.Param("K")
+		w.bits(1, 1)
+		w.bits(1, 2)
+		for i := 0; i < 26; i++ {
+			vbFixedSym(w, 'a'+i)
+		}
+		produced := 26
+		for produced+258 <= P {
+			vbFixedMatch(w, 258, 26)
+			produced += 258
+		}
+		for produced < P {
+			n := P - produced
+			if n < 3 {
+				for ; n > 0; n-- {
+					vbFixedSym(w, 'A'+produced%26)
+					produced++
+				}
+				break
+			}
+			vbFixedMatch(w, n, 26)
+			produced += n
+		}
+		c.preOut = produced
+		ml := verifrt.Param("ML")
+		lsym, lextra, lbits := vbLenSym(ml)
+		vbFixedSym(w, lsym)
+		w.bits(uint32(lextra), lbits)
+		ds := verifrt.Param("DS")
+		w.huff(uint32(ds), 5)
+		eb := 0
+		if ds >= 4 {
+			eb = ds/2 - 1
+		}
+		e := (uint32(s[0]) | uint32(s[1])<<8) & (1<<uint(eb) - 1)
+		verifrt.Assume(int(e) >= verifrt.Param("XLO") && int(e) <= verifrt.Param("XHI"))
+		c.symStart = w.bitLen()
+		w.bits(e, eb)
+		vbFixedSym(w, 256)
+		c.stream = w.bytes()
+		return c
 	case ctx == 92:
 		// a complete final dynamic block (template K, run-length coded header, empty body,
 		// end-of-block, then zero bytes) in which the bits [BLO, BHI) are symbolic: header
